@@ -271,6 +271,37 @@ func init() {
 		id := x.newObj(arr, s)
 		return &SliceVal{Ptr: x.ptrTo(id, 0), Len: x.i64(len(res)), Cap: x.i64(len(res))}
 	})
+	RegisterIntrinsic("(*regexp.Regexp).ReplaceAllStringFunc", func(x *Exec, s *State, c *CallCtx) Value {
+		subj, ok := x.concreteStr(c.Args[1].(*StrVal))
+		if !ok {
+			x.fail("regexp.ReplaceAllStringFunc on a symbolic subject")
+		}
+		if reOf(x, s, c.Args[0]).FindStringIndex(subj) != nil {
+			x.fail("regexp.ReplaceAllStringFunc with matches (callback not modelled)")
+		}
+		return c.Args[1]
+	})
+	RegisterIntrinsic("strings.NewReplacer", func(x *Exec, s *State, c *CallCtx) Value {
+		var pairs []string
+		for _, a := range x.variadicArgs(s, c.Args[0]) {
+			p, ok := x.concreteStr(a.(*StrVal))
+			if !ok {
+				x.fail("strings.NewReplacer with symbolic pairs")
+			}
+			pairs = append(pairs, p)
+		}
+		id := x.newObj(&OpaqueVal{Kind: "replacer", X: strings.Join(pairs, "\x00")}, s)
+		return x.ptrTo(id)
+	})
+	RegisterIntrinsic("(*strings.Replacer).Replace", func(x *Exec, s *State, c *CallCtx) Value {
+		p := c.Args[0].(*PtrVal)
+		pairs := strings.Split(s.Heap[p.Alts[0].Obj].(*OpaqueVal).X.(string), "\x00")
+		subj, ok := x.concreteStr(c.Args[1].(*StrVal))
+		if !ok {
+			x.fail("strings.Replacer.Replace on a symbolic subject")
+		}
+		return x.str(strings.NewReplacer(pairs...).Replace(subj))
+	})
 	RegisterIntrinsic("(*regexp.Regexp).MatchString", func(x *Exec, s *State, c *CallCtx) Value {
 		subj, ok := x.concreteStr(c.Args[1].(*StrVal))
 		if !ok {
